@@ -121,8 +121,11 @@ int main(int argc, char** argv)
     uint64_t emitted = 0, disagree = 0, trapped = 0, notce = 0, nonfinite = 0;
     auto g = rc::gen::resize(100, rc::gen::container<std::vector<uint64_t>>((std::size_t)cl->nwords, rc::gen::arbitrary<uint64_t>()));
     rc::check("emit", [&]() {
-      std::vector<uint64_t> w = *g; Dec d(w.data(), w.size()); Args a = genname == "c07" ? cl->decode(ctx, d) : c08_decode(ctx, d);
-      int id = entry_from_key(a[0]); const char* fl = g_sigs[id].flags; if (!strcmp(fl, "RT")) { ++notce; return; }
+      std::vector<uint64_t> w = *g; Dec d(w.data(), w.size()); Args a; int id;
+      if (genname == "clause") {   // the property clause's own targeted generator, mapped onto an inventory entry
+        Args ca = cl->decode(ctx, d); int64_t x, y, z; if (!ce_map(cl->id, ca, id, x, y, z)) return; a = { entry_key(id), x, y, z };
+      } else { a = genname == "c07" ? cl->decode(ctx, d) : c08_decode(ctx, d); id = entry_from_key(a[0]); }
+      const char* fl = g_sigs[id].flags; if (!strcmp(fl, "RT")) { ++notce; return; }
       const auto& sig = entry_args()[id]; if (genname != "c07") for (size_t i = 0; i < sig.size(); ++i) if (!c08_arg_ok(id, i, sig[i], a[1 + i])) return;
       bool sq = !strcmp(fl, "CESQ"); bool have = false, bad = false; int64_t ref = 0;
       for (const Cut& c : ctx.cuts) { CallResult r = cut_call(c, id, a[1], a[2], a[3]); if (r.trap) { ++trapped; bad = true; break; } if (sq && !c.abacus) continue; if (!have) { have = true; ref = r.v; } else if (r.v != ref) { if (disagree < 12) fprintf(stderr, "emit: builds disagree on %s(%" PRId64 ",%" PRId64 ",%" PRId64 "): %" PRId64 " vs %" PRId64 " (%s)\n", g_sigs[id].name, a[1], a[2], a[3], ref, r.v, c.name.c_str()); ++disagree; bad = true; break; } }
